@@ -737,6 +737,27 @@ def generator_depends(p: Project) -> None:
     p.expect = [('gd', 'all'), ('gd', 'meson-test-prereq')]
 
 
+@entry('generator-depends-per-call', ['gcc'], [{'layout': 'mirror'}], {'layout': LAYOUT, 'unity': UNITY},
+       'generate_genlist_for_target: generator.depends AND process(depends:) (GeneratedList.extra_depends) together',
+       'generator(depends: [table]) used once plainly and once with process(..., depends: [schema]): the program reads table in both calls and schema in the second')
+def generator_depends_per_call(p: Project) -> None:
+    L = head(p, ['c'])
+    L.append(f"table = custom_target('table', input: 'table.txt.in', output: 'table.txt', {COPY})")
+    L.append(f"schema = custom_target('schema', input: 'schema.txt.in', output: 'schema.txt', {COPY})")
+    L.append("g = generator(gen, output: '@BASENAME@.c', arguments: ['--read', table.full_path(), '@EXTRA_ARGS@', '--copy', '@INPUT@', '@OUTPUT@'], depends: [table])")
+    L.append("plain = g.process('gp_a.tpl')")
+    L.append("percall = g.process('gp_b.tpl', depends: [schema], extra_args: ['--read', schema.full_path()])")
+    L.append("exe = executable('gpc', 'main.c', plain, percall)")
+    L.append("test('gpc', exe)")
+    p.files['table.txt.in'] = 'table\n'
+    p.files['schema.txt.in'] = 'schema\n'
+    p.files['gp_a.tpl'] = 'int gp_a(void) { return 40; }\n'
+    p.files['gp_b.tpl'] = 'int gp_b(void) { return 2; }\n'
+    p.files['main.c'] = 'int gp_a(void);\nint gp_b(void);\nint main(void) { return gp_a() + gp_b() - 42; }\n'
+    p.files['meson.build'] = '\n'.join(L) + '\n'
+    p.expect = [('gpc', 'all'), ('gpc', 'meson-test-prereq')]
+
+
 @entry('generator-built-exe', ['gcc'], [{'layout': 'mirror'}], {'layout': LAYOUT, 'unity': UNITY},
        'generate_genlist_for_target / as_meson_exe_cmdline with a built executable as generator program (dependency on the tool)',
        'generator whose program is an executable built by the project; produces a header and a source')
